@@ -69,10 +69,10 @@ PROPS = {
         "outside": "payloads > 9 arbitrary bytes after the header; max_packet_size > 64 (u16 length truncation of 64 KiB items); user types that panic; release-profile wrapping is excluded by the overflow checks; " + OUT_E1,
         "assumptions": [STUBS, "every Rust panic / overflow / index / debug_assert check inside foca is a C06 obligation in every harness"],
         "harnesses": [
-            H("c06_set_config_grow", cost=60), H("c06_set_config_shrink", cost=60), H("c06_fuzz_gossip_7", cost=120),
-            H("c06_fuzz_ping_7", cost=120), H("d_ping", cost=80), H("t_probe_k2", cost=60),
+            H("c06_set_config_grow", cost=60), H("c06_set_config_shrink", cost=60), H("c06_fuzz_feed_2", cost=120),
+            H("c06_fuzz_broadcast_5", cost=120), H("d_ping", cost=80), H("t_probe_k2", cost=60),
             H("c06_config_new_lan", cost=10, **CD), H("c06_config_new_wan", cost=10, **CD),
-            H("c06_set_config_same", tier=T), H("c06_fuzz_gossip_9", tier=T, cost=200), H("c06_fuzz_broadcast_5", tier=T), H("c06_fuzz_feed_2", tier=T),
+            H("c06_set_config_same", tier=T), H("c06_set_config_gossip", tier=T, cost=600, timeout_t=3000), H("c06_fuzz_gossip_7", tier=T, cost=900, timeout_t=3600), H("c06_fuzz_gossip_9", tier=T, cost=900, timeout_t=3600), H("c06_fuzz_ping_7", tier=T, cost=900, timeout_t=3600),
             H("c06_fuzz_turnundead_3", tier=T, cost=300), H("a_apply1_k2", tier=T, cost=220), H("d_turn_undead", tier=T, cost=300),
             H("a_leave", tier=T), H("a_change_identity", tier=T), H("t_indirect_k2", tier=T), H("t_announce_down", tier=T, cost=120),
             H("c07_send_pb_9", tier=T), H("c07_send_feed_failing", tier=T, cost=600, timeout_t=3000),
